@@ -190,8 +190,8 @@ def _pure_const_expr(e):
     if isinstance(e, ast.Constant):
         return True
     if isinstance(e, ast.Tuple):
-        return all(isinstance(x, (ast.Constant, ast.Name)) and (not isinstance(x, ast.Name) or x.id in ('int', 'float', 'str', 'bool', 'bytes', 'complex'))
-                   for x in e.elts)
+        return all((isinstance(x, ast.Name) and x.id in ('int', 'float', 'str', 'bool', 'bytes', 'complex')) or
+                   (not isinstance(x, ast.Name) and _pure_const_expr(x)) for x in e.elts)
     if isinstance(e, ast.UnaryOp) and isinstance(e.op, (ast.USub, ast.UAdd)):
         return _pure_const_expr(e.operand)
     if isinstance(e, ast.BinOp) and isinstance(e.op, (ast.Add, ast.Sub, ast.Mult, ast.Div, ast.Pow)):
@@ -515,18 +515,52 @@ def _single_early_load(body, p):
     return any(isinstance(x, ast.Name) and x.id == p for e in own for x in ast.walk(e))
 
 
+def _first_call(e):
+    """the call whose evaluation completes first when e is evaluated (left-most, inner-most), or None if e contains no call
+    on its first-evaluated spine"""
+    if e is None or isinstance(e, (ast.Name, ast.Constant)):
+        return None
+    if isinstance(e, ast.Call):
+        if isinstance(e.func, ast.Attribute):
+            r = _first_call(e.func.value)
+            if r is not None:
+                return r
+        elif not isinstance(e.func, ast.Name):
+            return None
+        for a in list(e.args) + [k.value for k in e.keywords]:
+            if isinstance(a, ast.Starred):
+                return None
+            if _atomic(a):
+                continue
+            r = _first_call(a)
+            if r is not None:
+                return r
+            if not _pure_read(a):
+                return None
+        return e
+    if isinstance(e, ast.Attribute):
+        return _first_call(e.value)
+    if isinstance(e, ast.Subscript):
+        return _first_call(e.value) or (_first_call(e.slice) if _atomic(e.value) else None)
+    if isinstance(e, ast.BinOp):
+        return _first_call(e.left) or (_first_call(e.right) if _atomic(e.left) or _pure_read(e.left) else None)
+    if isinstance(e, ast.Compare):
+        return _first_call(e.left) or (_first_call(e.comparators[0]) if _atomic(e.left) or _pure_read(e.left) else None)
+    if isinstance(e, ast.UnaryOp):
+        return _first_call(e.operand)
+    if isinstance(e, ast.BoolOp):
+        return _first_call(e.values[0])
+    if isinstance(e, ast.IfExp):
+        return _first_call(e.test)
+    return None
+
+
 def _first_evaluated_call(st):
-    """the call evaluated first by a simple statement (following the left-most / inner-most evaluation order), or None"""
+    """the call evaluated first by a simple statement, an if-test or a for-iterable (left-most / inner-most evaluation order), or None"""
     if isinstance(st, (ast.Expr, ast.Return)):
         e = st.value
     elif isinstance(st, ast.If):
         e = st.test
-        if isinstance(e, ast.UnaryOp) and isinstance(e.op, ast.Not):
-            e = e.operand
-        if isinstance(e, ast.BoolOp):
-            e = e.values[0]                      # the first operand of and / or is evaluated first
-            if isinstance(e, ast.UnaryOp) and isinstance(e.op, ast.Not):
-                e = e.operand
     elif isinstance(st, ast.For):
         e = st.iter
     elif isinstance(st, (ast.Assign, ast.AnnAssign, ast.AugAssign)):
@@ -535,35 +569,7 @@ def _first_evaluated_call(st):
         e = st.value
     else:
         return None
-    found = None
-    while e is not None:
-        if isinstance(e, ast.Call):
-            # the callee expression is evaluated first, then the arguments
-            inner = e.func.value if isinstance(e.func, ast.Attribute) else None
-            cand = None
-            x = inner
-            while x is not None:
-                if isinstance(x, ast.Call):
-                    cand = x
-                    break
-                x = x.value if isinstance(x, (ast.Attribute, ast.Subscript)) else None
-            if cand is None:
-                return found if found is not None else e
-            found = None
-            e = cand
-            # descend: cand might itself have a call in its callee expression
-            continue
-        if isinstance(e, (ast.Attribute, ast.Subscript)):
-            e = e.value
-        elif isinstance(e, ast.BinOp):
-            e = e.left if not _atomic(e.left) else e.right          # an atomic left operand has no effect of its own
-        elif isinstance(e, ast.Compare):
-            e = e.left if not _atomic(e.left) else e.comparators[0]
-        elif isinstance(e, ast.UnaryOp):
-            e = e.operand
-        else:
-            return None
-    return None
+    return _first_call(e)
 
 
 def _const_truth(e):
@@ -890,7 +896,7 @@ def inline_helpers(trees, base, log):
             if name in b['funcs']:
                 continue
         else:
-            if cls not in b['classes'] or name in b['classes'][cls]['methods']:
+            if cls in b['classes'] and name in b['classes'][cls]['methods']:
                 continue
         static = _eligible_helper(fn, cls)
         if static is None:
@@ -992,6 +998,12 @@ def _pure_read(e, allow_attr=True):
         return _pure_read(e.left, allow_attr) and _pure_read(e.right, allow_attr)
     if isinstance(e, ast.Tuple):
         return all(_pure_read(x, allow_attr) for x in e.elts)
+    if isinstance(e, ast.IfExp):
+        return _pure_read(e.test, allow_attr) and _pure_read(e.body, allow_attr) and _pure_read(e.orelse, allow_attr)
+    if isinstance(e, ast.BoolOp):
+        return all(_pure_read(x, allow_attr) for x in e.values)
+    if isinstance(e, ast.Compare):
+        return _pure_read(e.left, allow_attr) and all(_pure_read(x, allow_attr) for x in e.comparators)
     if isinstance(e, ast.Slice):
         return all(x is None or _pure_read(x, allow_attr) for x in (e.lower, e.upper, e.step))
     if isinstance(e, ast.Call) and isinstance(e.func, ast.Attribute) and isinstance(e.func.value, ast.Name) and e.func.value.id not in ('self', 'cls') \
@@ -1268,6 +1280,7 @@ def propagate_locals(trees, base, log):
         for n in tree.body:
             if isinstance(n, (ast.FunctionDef, ast.AsyncFunctionDef)) and n.name in b['funcs']:
                 ifexp_to_if(n)
+                chain_to_ifexp(n, b['funcs'][n.name])
                 for _i in range(3):
                     before = len(log)
                     do_fn(n, b['funcs'][n.name], f'{mname}.{n.name}')
@@ -1279,6 +1292,7 @@ def propagate_locals(trees, base, log):
                     if isinstance(m, (ast.FunctionDef, ast.AsyncFunctionDef)) and m.name in b['classes'][n.name]['methods']:
                         known = b['classes'][n.name]['methods'][m.name]
                         ifexp_to_if(m)
+                        chain_to_ifexp(m, known)
                         for _i in range(3):
                             before = len(log)
                             do_fn(m, known, f'{n.name}.{m.name}')
@@ -1320,6 +1334,62 @@ def _visit_own(st, transformer):
         pass
     else:
         transformer.visit(st)
+
+
+def chain_to_ifexp(fn, known_locals):
+    """`if c1: v = a elif c2: v = b else: v = c` (v a new local, every branch that single assignment) -> `v = a if c1 else (b if c2 else c)`"""
+    new_locals = _locals_of(fn) - set(known_locals)
+    if not new_locals:
+        return
+
+    def as_expr(st):
+        """(name, expr) when st is such a chain, else None"""
+        if not isinstance(st, ast.If) or len(st.body) != 1 or len(st.orelse) != 1:
+            return None
+        n1, v1 = _single_name_assign(st.body[0])
+        if n1 is None or n1 not in new_locals:
+            return None
+        o = st.orelse[0]
+        if isinstance(o, ast.If):
+            r = as_expr(o)
+            if r is None or r[0] != n1:
+                return None
+            v2 = r[1]
+        else:
+            n2, v2 = _single_name_assign(o)
+            if n2 != n1:
+                return None
+        return n1, ast.copy_location(ast.IfExp(test=st.test, body=v1, orelse=v2), st)
+
+    def boolean(e):
+        if isinstance(e, ast.Constant):
+            return isinstance(e.value, bool)
+        if isinstance(e, ast.IfExp):
+            return boolean(e.body) and boolean(e.orelse)
+        if isinstance(e, ast.UnaryOp) and isinstance(e.op, ast.Not):
+            return True
+        return isinstance(e, (ast.Compare, ast.BoolOp))
+
+    def block(stmts):
+        out = []
+        for st in stmts:
+            r = as_expr(st)
+            if r is not None and not boolean(r[1]):
+                r = None                         # only boolean flags; other values are handled by return sinking
+            if r is not None:
+                out.append(ast.copy_location(ast.Assign(targets=[ast.Name(id=r[0], ctx=ast.Store())], value=r[1], lineno=st.lineno), st))
+                continue
+            for field in ('body', 'orelse', 'finalbody'):
+                v = getattr(st, field, None)
+                if isinstance(v, list) and not isinstance(st, (ast.FunctionDef, ast.AsyncFunctionDef, ast.ClassDef)):
+                    setattr(st, field, block(v))
+            if isinstance(st, ast.Try):
+                for h in st.handlers:
+                    h.body = block(h.body)
+            out.append(st)
+        return out
+    fn.body = block(fn.body)
+    ast.fix_missing_locations(fn)
 
 
 def ifexp_to_if(fn):
